@@ -153,7 +153,7 @@ func shapeLine(shape, line string) string {
 	s = strings.ReplaceAll(s, "<trunc3>", tr(3))
 	s = strings.ReplaceAll(s, "<trunc2>", tr(2))
 	s = strings.ReplaceAll(s, "<trunc1>", tr(1))
-	s = strings.ReplaceAll(s, "<long>", line+"|"+strings.Repeat("z", 70000))
+	s = strings.ReplaceAll(s, "<long>", line+"|{LONG70000}") // expanded in the worker, keeps plans small
 	return s
 }
 
@@ -328,6 +328,7 @@ func runHandshake(r *h.Run, prop string) {
 	c := hsConfFrom(r.Spec)
 	raw, _ := base64.StdEncoding.DecodeString(r.Spec.P("out", ""))
 	text := string(raw)
+	text = strings.ReplaceAll(text, "{LONG70000}", strings.Repeat("z", 70000))
 	cert := ""
 	if strings.Contains(text, "{CERT}") {
 		cert = genCertB64()
